@@ -859,3 +859,307 @@ def extra_checks(ctx):
     res.append({'name': 'blank atom name with excludeH=True is an ordinary non-hydrogen atom', 'ok': ok, 'case': {'lines': L}, 'detail': det,
                 'kind': 'blank_atom_name_excludeH'})
     return res
+
+
+# ----------------------------------------------------------------------------------------------------------------
+# binary64 vs exact decision: the theorems of Proofs/FloatMargin.lean (re-exported by Props/C05K.lean) sampled at their edge
+# ----------------------------------------------------------------------------------------------------------------
+#
+#   contact_decision_eq      : |d² − c²| > 8·2⁻⁵³·c²  ->  (np.sqrt(np.sum((q − p)**2)) <= c)  ==  (d² ≤ c²),  d² exact on the DOUBLES
+#   pdb_lattice_decision_eq  : three-decimal text coordinates, decimal cutoff n/1000: library decision == (Σ Δ² ≤ n²) in integers,
+#                              unless Σ Δ² = n²
+# Both are proved for every rounding `fl` meeting the IEEE round-to-nearest contract (`RoundOK`) and for the evaluation order
+# fl(fl(sx+sy)+sz), sx = fl(fl(x₂−x₁)·fl(x₂−x₁)).  The checks below (a) compare that evaluation order with NumPy bit for bit,
+# (b) run the REAL library on atom pairs whose doubles are just outside the proved margin (8u < |d²−c²|/c² ≤ 48u, both sides) and
+# (c) on PDB text one to five lattice steps (10⁻⁶ Å²) off the cutoff with coordinates up to 9999.999, and require the library's
+# decision to be the exact one.  Nothing here is discarded or tolerated: the theorem says the decisions are equal.
+
+_FM_U = Fraction(1, 2 ** 53)
+_FM_CUTS = [3.0, 5.0, 8.5, 10.0, 4.3, 6.0]          # the library's own cutoffs (3.0 5.0 8.5 10.0) and two others (4.3 is not a binary64 number)
+
+
+def _fm_fl(fr):
+    """round to nearest even binary64 of an exact rational (CPython's int/int division is correctly rounded)"""
+    return Fraction(float(fr))
+
+
+def _fm_model_radicand(p, q):
+    """`fdist2` of Proofs/FloatMargin.lean, evaluated exactly: p, q triples of doubles"""
+    sq = []
+    for i in range(3):
+        d = _fm_fl(Fraction(q[i]) - Fraction(p[i]))
+        sq.append(_fm_fl(d * d))
+    return _fm_fl(_fm_fl(sq[0] + sq[1]) + sq[2])
+
+
+def _fm_d2(p, q):
+    return sum((Fraction(q[i]) - Fraction(p[i])) ** 2 for i in range(3))
+
+
+def _fm_gap(p, q, c):
+    """(d² − c²) / (u·c²): the theorem decides when this is outside [-8, 8]"""
+    c2 = Fraction(c) ** 2
+    return (_fm_d2(p, q) - c2) / (_FM_U * c2)
+
+
+def _fm_near_edge_pair(rng, c, side, base, lo=8, hi=48):
+    """doubles p, q near `base` with lo < side·(d²−c²)/(u·c²) ≤ hi (exact arithmetic), or None"""
+    import math
+    for _ in range(60):
+        scale = rng.choice([1.0, 8.0, 50.0, 500.0])
+        p = [base[i] + rng.uniform(-scale, scale) for i in range(3)]
+        v = [rng.gauss(0, 1) for _ in range(3)]
+        n = math.sqrt(sum(t * t for t in v))
+        if n < 1e-3:
+            continue
+        v = [t / n * c for t in v]
+        q = [p[i] + v[i] for i in range(3)]
+        k = max(range(3), key=lambda i: abs(v[i]))
+        outward = math.inf if v[k] > 0 else -math.inf          # moving q[k] this way increases the distance
+        for _step in range(400):
+            g = _fm_gap(p, q, c)                                # > 0 outside the cutoff
+            if (lo < g <= hi) if side > 0 else (-hi <= g < -lo):
+                return p, q
+            move_out = (g <= lo) if side > 0 else (g < -hi)
+            q[k] = float(np.nextafter(q[k], outward if move_out else -outward))
+    return None
+
+
+def _fm_library_pairs(lines, xyz, cutoff):
+    """set of (rowID chain A, rowID chain B) the REAL library reports; `xyz` (doubles, one triple per line) is written through the
+    public API when given.  Returns (pairs, coordinates the object holds)"""
+    db = interface(list(lines))
+    try:
+        if xyz is not None:
+            rows = list(range(len(lines)))
+            for k, col in enumerate('xyz'):
+                db.update_column(col, [float(t[k]) for t in xyz], index=rows)
+        held = [[float(v) for v in r] for r in db.get('x,y,z')]
+        pm = db.get_contact_atoms(cutoff=cutoff, chain1='A', chain2='B', return_contact_pairs=True)
+        pairs = set()
+        for i, js in pm.items():
+            for j in js:
+                pairs.add((as_int(i), as_int(j)))
+        return pairs, held
+    finally:
+        db._close()
+
+
+def _fm_field(k):
+    """the 8-column PDB field of k/1000, built from the integer (no float formatting involved)"""
+    s = ('-' if k < 0 else '') + '%d.%03d' % (abs(k) // 1000, abs(k) % 1000)
+    if len(s) > 8:
+        raise ValueError('does not fit 8 columns: %r' % k)
+    return s.rjust(8)
+
+
+def _fm_text_lines(pts_a, pts_b):
+    """two chains; coordinates in thousandths of an Angstrom (integers)"""
+    lines = []
+    for ch, pts in (('A', pts_a), ('B', pts_b)):
+        for m, (i, j, k) in enumerate(pts):
+            l = atom_line(len(lines) + 1, ' CA ', 'ALA', ch, m + 1, 0.0, 0.0, 0.0)
+            lines.append(l[:30] + _fm_field(i) + _fm_field(j) + _fm_field(k) + l[54:])
+    return lines
+
+
+def _fm_lattice_offsets(rng, n, delta, want=6):
+    """non-negative integer triples with a² + b² + c² = n² + delta"""
+    T = n * n + delta
+    b = np.arange(0, n + 2, dtype=np.int64)
+    sols = []
+    for a in rng.sample(range(0, n + 1), min(n + 1, 80)):
+        r = T - a * a - b * b
+        ok = r >= 0
+        c0 = np.floor(np.sqrt(np.where(ok, r, 0).astype(np.float64))).astype(np.int64)
+        for c in (c0, c0 + 1):
+            for idx in np.nonzero(ok & (c * c == r))[0]:
+                sols.append((int(a), int(b[idx]), int(c[idx])))
+        if len(sols) >= want:
+            break
+    return sols
+
+
+def _fm_check_numpy_order(ctx, rng):
+    """NumPy's evaluation of the library's expression == `fdist2` (Fraction arithmetic, each operation rounded once), bit for bit;
+    np.sqrt returns the nearest double"""
+    n = ctx.scale(1500, 12000)
+    bad = None
+    rows_p, rows_q = [], []
+    for _ in range(n):
+        kind = rng.random()
+        if kind < 0.4:            # doubles of three-decimal numbers, large magnitudes included
+            m = rng.choice([10, 100, 9999])
+            p = [rng.randint(-m * 1000, m * 1000) / 1000.0 for _i in range(3)]
+            q = [p[i] + rng.randint(-12000, 12000) / 1000.0 for i in range(3)]
+            q = [round(t, 3) for t in q]
+        elif kind < 0.8:          # arbitrary doubles
+            s = rng.choice([1.0, 30.0, 3000.0])
+            p = [rng.uniform(-s, s) for _i in range(3)]
+            q = [p[i] + rng.uniform(-10, 10) for i in range(3)]
+        else:                     # coincident coordinates, tiny differences
+            p = [rng.uniform(-50, 50) for _i in range(3)]
+            q = [p[0], float(np.nextafter(p[1], np.inf)), p[2] + rng.choice([0.0, 1e-9, 3.0])]
+        rows_p.append(p)
+        rows_q.append(q)
+    for k in range(n):
+        p, q = rows_p[k], rows_q[k]
+        # the expression of interface.py:125 (a block of rows against one x0) and of StructureSimilarity.py:454 (one pair)
+        xyz2 = np.array([q, rows_q[(k + 1) % n], rows_q[(k + 2) % n]])
+        s_rows = np.sum((xyz2 - np.array(p)) ** 2, 1)
+        s_one = np.sum((np.array(q) - np.array(p)) ** 2)
+        ref = _fm_model_radicand(p, q)
+        if Fraction(float(s_rows[0])) != ref or Fraction(float(s_one)) != ref:
+            bad = {'p': [rat(t) for t in p], 'q': [rat(t) for t in q], 'numpy_rows': rat(float(s_rows[0])), 'numpy_one': rat(float(s_one)),
+                   'model': rat(float(ref))}
+            break
+        s = float(s_rows[0])
+        r = float(np.sqrt(s))
+        lo = (Fraction(r) + Fraction(float(np.nextafter(r, -np.inf)))) / 2
+        hi = (Fraction(r) + Fraction(float(np.nextafter(r, np.inf)))) / 2
+        if r < 0 or not ((lo <= 0 or lo * lo <= Fraction(s)) and Fraction(s) <= hi * hi):
+            bad = {'sqrt_of': rat(s), 'numpy': rat(r)}
+            break
+    return {'name': f'binary64 evaluation of the contact expression = fdist2 of Proofs/FloatMargin.lean, bit for bit; np.sqrt correctly rounded ({n} rows)',
+            'ok': bad is None, 'case': bad, 'detail': 'NumPy does not evaluate np.sum((q-p)**2) as fl(fl(sx+sy)+sz), sx=fl(fl(dx)*fl(dx)), or np.sqrt is not the nearest double'}
+
+
+def _fm_check_double_edge(ctx, rng):
+    """contact_decision_eq at its edge: doubles with 8u < |d²−c²|/c² ≤ 48u on both sides, through the real library"""
+    nstruct = ctx.scale(8, 60)
+    K = 12
+    bad = None
+    npairs = 0
+    sides = {1: 0, -1: 0}
+    for _s in range(nstruct):
+        c = rng.choice(_FM_CUTS)
+        A, B, want = [], [], []
+        for k in range(K):
+            side = rng.choice([1, -1])
+            base = [rng.uniform(-20, 20), 60.0 * k, rng.uniform(-20, 20)]
+            if rng.random() < 0.25:
+                base[0] += rng.choice([-1, 1]) * rng.choice([900.0, 9000.0])
+            pq = _fm_near_edge_pair(rng, c, side, base)
+            if pq is None:
+                continue
+            if rng.random() < 0.5:
+                pq = (pq[1], pq[0])
+            A.append(pq[0]); B.append(pq[1]); want.append(side)
+            sides[side] += 1
+        if not A:
+            continue
+        lines = _fm_text_lines([(0, 0, 0)] * len(A), [(0, 0, 0)] * len(B))
+        xyz = A + B
+        expected = set()
+        precondition = True
+        for i, p in enumerate(A):
+            for j, q in enumerate(B):
+                g = _fm_gap(p, q, c)
+                if abs(g) <= 8:
+                    precondition = False
+                if g <= 0:
+                    expected.add((i, len(A) + j))
+        npairs += len(A)
+        try:
+            got, held = _fm_library_pairs(lines, xyz, c)
+            same_xyz = held == [[float(t) for t in r] for r in xyz]
+        except Exception as e:
+            bad = {'cutoff': c, 'raised': repr(e)[:300], 'xyz': [[rat(t) for t in r] for r in xyz]}
+            break
+        if not precondition or not same_xyz or got != expected:
+            diff = sorted(got ^ expected)[:3]
+            bad = {'cutoff': rat(c), 'xyz': [[rat(t) for t in r] for r in xyz], 'pairs_differing': diff,
+                   'gap_in_units_of_u_c2': [float(_fm_gap(xyz[i], xyz[j], c)) for i, j in diff],
+                   'coordinates_held_exactly': same_xyz, 'all_pairs_outside_margin': precondition}
+            break
+    return {'name': f'theorem contact_decision_eq at its edge: library decision = exact decision for doubles with 8u < |d2-c2|/c2 <= 48u '
+                    f'({npairs} pairs in {nstruct} structures, outside {sides[1]} / inside {sides[-1]})',
+            'ok': bad is None and npairs > 0, 'case': bad,
+            'detail': 'the real get_contact_atoms decided a pair outside the proved margin differently from the exact rational test'}
+
+
+def _fm_check_text_edge(ctx, rng):
+    """pdb_lattice_decision_eq: PDB text with coordinates up to 9999.999, squared distance n² + δ·10⁻⁶ (δ = ±1..±5), decimal cutoff n/1000"""
+    nstruct = ctx.scale(8, 60)
+    K = 12
+    bad = None
+    npairs = 0
+    sides = {1: 0, -1: 0}
+    cache = {}
+    for _s in range(nstruct):
+        n = rng.choice([3000, 5000, 8500, 10000, 4300, 6000])
+        c = n / 1000.0                                   # the double of the decimal cutoff
+        bx = rng.choice([9999999 - rng.randint(0, 30000), rng.randint(-900000, 9900000), rng.randint(-20000, 20000)])
+        bz = rng.choice([9999999 - rng.randint(0, 30000), rng.randint(-900000, 9900000), rng.randint(-20000, 20000)])
+        A, B = [], []
+        for k in range(K):
+            delta = rng.choice([1, 2, 3, 5, -1, -2, -3, -5])
+            if (n, delta) not in cache:
+                cache[(n, delta)] = _fm_lattice_offsets(rng, n, delta)
+            if not cache[(n, delta)]:
+                continue                                 # n² + δ is not a sum of three squares
+            off = list(rng.choice(cache[(n, delta)]))
+            rng.shuffle(off)
+            off = [t * rng.choice([-1, 1]) for t in off]
+            p = [bx + rng.randint(-3000, 3000), 60000 * k + rng.randint(-3000, 3000), bz + rng.randint(-3000, 3000)]
+            q = [p[i] + off[i] for i in range(3)]
+            if any(not (-999999 <= t <= 9999999) for t in p + q):
+                q = [p[i] - off[i] for i in range(3)]
+            if any(not (-999999 <= t <= 9999999) for t in p + q):
+                continue
+            if rng.random() < 0.5:
+                p, q = q, p
+            A.append(tuple(p)); B.append(tuple(q))
+            sides[1 if delta > 0 else -1] += 1
+        if not A:
+            continue
+        lines = _fm_text_lines(A, B)
+        expected = set()
+        precondition = True
+        for i, p in enumerate(A):
+            for j, q in enumerate(B):
+                N = sum((q[t] - p[t]) ** 2 for t in range(3))
+                if N == n * n:
+                    precondition = False
+                if N <= n * n:
+                    expected.add((i, len(A) + j))
+        npairs += len(A)
+        try:
+            got, _held = _fm_library_pairs(lines, None, c)
+        except Exception as e:
+            bad = {'cutoff': c, 'raised': repr(e)[:300], 'lines': lines}
+            break
+        if not precondition or got != expected:
+            bad = {'cutoff': c, 'lines': lines, 'pairs_differing': sorted(got ^ expected)[:3], 'no_pair_exactly_on_the_cutoff': precondition}
+            break
+    return {'name': f'theorem pdb_lattice_decision_eq: library decision on PDB text = integer comparison, squared distance 1-5 lattice steps (1e-6 A^2) '
+                    f'off the cutoff, coordinates up to 9999.999 ({npairs} pairs in {nstruct} structures, outside {sides[1]} / inside {sides[-1]})',
+            'ok': bad is None and npairs > 0, 'case': bad,
+            'detail': 'the real get_contact_atoms decided a pair of three-decimal atoms off the cutoff differently from the integer comparison of the text digits'}
+
+
+def float_margin_checks(ctx):
+    import random
+    rng = random.Random(ctx.rng.getrandbits(64))         # one draw from the seeded stream; the rest is derived from it
+    out = []
+    for f in (_fm_check_numpy_order, _fm_check_double_edge, _fm_check_text_edge):
+        try:
+            out.append(f(ctx, rng))
+        except Exception as e:          # a crash of this harness code is reported as a failed check, never swallowed
+            out.append({'name': f.__name__ + ' (float margin)', 'ok': False, 'case': None, 'detail': 'harness error ' + repr(e)[:300]})
+    return out
+
+
+_extra_checks_without_float_margin = extra_checks
+
+
+def extra_checks(ctx):                  # noqa: F811  (extends the definition above; its results come first, unchanged)
+    return _extra_checks_without_float_margin(ctx) + float_margin_checks(ctx)
+
+
+ASSUMPTIONS = ASSUMPTIONS + [
+    'binary64 vs exact decision: PROVED equal whenever |d2 - c2| > 8*2^-53*c2 (d2 exact on the doubles; Props/C05K.lean contact_decision_eq), and for '
+    'three-decimal PDB text with a decimal cutoff whenever the squared text distance differs from the squared cutoff (pdb_lattice_decision_eq), for every '
+    'rounding meeting the IEEE round-to-nearest contract RoundOK (monotone, exact on doubles, relative error 2^-53; no overflow/underflow) and the '
+    'evaluation order fl(fl(sx+sy)+sz); that contract and order are compared with NumPy bit for bit on samples (extra_checks), not proved of the hardware; '
+    'the comparison of cases above still discards real-file cases closer than 1e-6 to the cutoff (unchanged)']
